@@ -64,19 +64,19 @@ macro_rules! base64_harness {
     };
 }
 
-// @harness id=c20_base64_roundtrip_2 props=C20,C01:thorough tier=thorough cap=1500
+// @harness id=c20_base64_roundtrip_2 props=C20,C01:thorough tier=attempt cap=1500
 // @desc encode_base64 / decode_base64 (std.base64, std.base64Decode(Bytes)) on every 2-byte input: the encoding is canonical RFC 4648 (4 characters per started group, alphabet only, one `=`), and decoding it returns the input
 // @bound all 65 536 two-byte inputs
 // @funcs stdlib::encode_base64, stdlib::decode_base64
 base64_harness!(c20_base64_roundtrip_2, 2, 66);
 
-// @harness id=c20_base64_roundtrip_3 props=C20 tier=thorough cap=1500
+// @harness id=c20_base64_roundtrip_3 props=C20 tier=attempt cap=1500
 // @desc as c20_base64_roundtrip_2 for every 3-byte input (no padding)
 // @bound all 2^24 three-byte inputs
 // @funcs stdlib::encode_base64, stdlib::decode_base64
 base64_harness!(c20_base64_roundtrip_3, 3, 66);
 
-// @harness id=c20_base64_roundtrip_4 props=C20 tier=thorough cap=3600
+// @harness id=c20_base64_roundtrip_4 props=C20 tier=attempt cap=3600
 // @desc as c20_base64_roundtrip_2 for every 4-byte input (two groups, `==` padding)
 // @bound all 2^32 four-byte inputs
 // @funcs stdlib::encode_base64, stdlib::decode_base64
